@@ -400,7 +400,7 @@ impl<'a> Runner<'a> {
 /// Only AST differences keep their tag (`Constructor/Ident`, `name`, …): it separates a
 /// re-association or a dropped node from the listed defects.
 fn failure_tag(f: &Failure) -> String {
-    if f.kind == "ast-changed" { f.tag.clone() } else { "-".to_string() }
+    if f.kind == "ast-changed" || f.kind == "literal-changed" { f.tag.clone() } else { "-".to_string() }
 }
 
 /// Class of an input that fails without any inserted comment being responsible.
@@ -517,14 +517,18 @@ fn run_program(r: &mut Runner, pi: u64, thorough: bool) {
     let long = pi % 3 == 0;
     let use_in = pi % 8 == 7;
     let undefined_op = pi % 16 == 5;
+    // literal-spelling family: a quarter of the pool
+    let lit_heavy = (pi / 4) % 3 == 1 && !undefined_op;
     let (p, used) = {
         let mut g = gen::Gen::new(&mut rng, long, use_in, undefined_op);
+        g.lit_heavy = lit_heavy;
         g.expr(depth);
         g.w_nl();
         (g.s.clone(), g.used.clone())
     };
     let style = if use_in { "in-style" } else { "layout" };
     let style = if undefined_op { "undefined-op" } else { style };
+    let style = if lit_heavy { "literals" } else { style };
     r.out.count(&format!("gen:style:{}", style));
     for u in &used {
         r.out.count(&format!("gen:construct:{}", u));
